@@ -1,6 +1,7 @@
 (* Crypto/EcdsaWitness.v — concrete witnesses on the executable secp256k1 instance (pure-Z variant) (closed
    computations, no premises).  The same inputs are replayed on the real crates by
-   harness/src/bin/ecdsa.rs (f5_witness, the first C17 case), which observes the same results. *)
+   harness/src/bin/ecdsa.rs (f5_witness, the sign oracle on d = 1 / ff..ff, the first C17 case), which
+   observes the same results. *)
 From Coq Require Import ZArith List Bool.
 From FV Require Import Base.Bytes Crypto.EcdsaModel Crypto.Secp256k1.
 Open Scope Z_scope.
@@ -17,21 +18,31 @@ Definition f5_key : bytes :=
 Lemma f5_s_is_half_plus_one : sig_s (fst (decode_signature f5_sig)) = n_k1 / 2 + 1.
 Proof. vm_compute. reflexivity. Qed.
 
-Lemma f5_backends_disagree :
-  m_recover secp256k1_pure (rules_libsecp n_k1) f5_sig f5_msg = Some f5_key /\
-  m_recover secp256k1_pure (rules_k256 n_k1) f5_sig f5_msg = None.
+(* current code (k256.rs recover normalises s, fix 378a736): both back-ends recover the same key *)
+Lemma f5_backends_agree :
+  m_recover_k256 secp256k1_pure f5_sig f5_msg = Some f5_key /\
+  m_recover secp256k1_pure (rules_libsecp n_k1) f5_sig f5_msg = Some f5_key.
 Proof. vm_compute. split; reflexivity. Qed.
 
-(* the proposed fix (normalise s, flip the parity, then the k256 rules) gives the libsecp256k1_pure answer *)
-Lemma f5_fixed_agrees :
-  match recover_rsv_normalising apoint a_eqb (a_add secp256k1_pure) None (a_smul secp256k1_pure) (a_G secp256k1_pure) n_k1 a_x
-          (a_lift secp256k1_pure) (rules_k256 n_k1)
-          (sig_r (fst (decode_signature f5_sig))) (sig_s (fst (decode_signature f5_sig)))
-          (snd (decode_signature f5_sig)) (msg_z n_k1 f5_msg) with
-  | Some Q => pk_bytes Q
-  | None => None
-  end = Some f5_key.
+(* HISTORICAL (before fix 378a736): recover_from_prehash alone, i.e. the k256 rules without the
+   normalisation step, rejects this signature; this is what the k256 back-end used to return *)
+Lemma f5_unnormalised_k256_rules_reject :
+  m_recover secp256k1_pure (rules_k256 n_k1) f5_sig f5_msg = None.
 Proof. vm_compute. reflexivity. Qed.
+
+(* known finding backend-sign-mismatch-message-ge-n: d = 1, 32-byte message ff..ff (>= n).  The two
+   libraries return DIFFERENT signatures (k256 feeds m mod n to the RFC 6979 nonce derivation,
+   libsecp256k1 the raw bytes); both are valid: each recovers the public key of d = 1, i.e. G *)
+Definition sgn_msg : bytes := hex "ffffffffffffffffffffffffffffffffffffffffffffffffffffffffffffffff".
+Definition sgn_k256 : bytes :=
+  hex "3f8fe493cf305a7f02b2d2c060ba66a8f7bd13a7a64d5200c0655ad069bd85b59cf94236c3857e33a1023a5216cbc81b1dc3adcc1c71f4212df1997ffdfb140a".
+Definition sgn_libsecp : bytes :=
+  hex "7cb38cc5712e9e11a767615f6080dbc111c9cdd613eb98999fd92a86bafd45407923ca1f4d03471d2866f776ef8a6d3cac099b427331aeb245aa9dafeddcf115".
+Lemma sign_ge_n_witness :
+  bytes_z sgn_msg >= n_k1 /\ sgn_k256 <> sgn_libsecp /\
+  m_recover secp256k1_pure (rules_libsecp n_k1) sgn_k256 sgn_msg = pk_bytes (a_G secp256k1_pure) /\
+  m_recover secp256k1_pure (rules_libsecp n_k1) sgn_libsecp sgn_msg = pk_bytes (a_G secp256k1_pure).
+Proof. split; [vm_compute; discriminate|]. split; [discriminate|]. vm_compute. split; reflexivity. Qed.
 
 (* F6: a signature produced by the library (d = 0x12345678, digest 1) and the digest 1 + n *)
 Definition f6_sig : bytes :=
